@@ -563,6 +563,79 @@ class TrKeyFx(Tr):
         return '(%s, fx)' % self.e(n)
 
 
+class TrKeyDict(Tr):
+    """a method that reads and edits the classification dictionaries of `self` for one key.  The state is
+    `d_ : KeyDict α` — the classes whose dictionary holds the key, with the values (a constant is a one-element list);
+    `get_values_and_class(key)` scans the valid classes in order as `get_classification` does.  A name bound to the list
+    stored in a dictionary is an alias of it: `x.extend(v)` writes the extended list back under the class the alias was
+    read from (tracked in `<x>_cls`)."""
+    allow_absent = False      # `values, cls = get_values_and_class(key)` may give (None, None)
+
+    def lookup(self, ind, vals, cls):
+        out = ['%slet vc_ := KeyDict.valuesAndClass (← get_valid_classes self_shape) d_' % ind]
+        if self.allow_absent:
+            out += ['%slet %s := (match vc_ with | some (_, v) => v | none => [null])' % (ind, vals),
+                    '%slet %s := vc_.map (·.1)' % (ind, cls)]
+        else:
+            # an absent key gives (None, None); every later use of the classification is a TypeError / KeyError
+            out += ['%slet some (%s, %s_0) := vc_ | throw PyErr.typeError' % (ind, cls, vals),
+                    '%slet mut %s := %s_0' % (ind, vals, vals), '%slet mut %s_cls := %s' % (ind, vals, cls)]
+            self.declared[-1].update([vals + '_cls'])
+        self.declared[-1].update([vals, cls])
+        return out
+
+    def stmt0(self, s, ind):
+        src = self.src(s)
+        if isinstance(s, ast.Assign) and len(s.targets) == 1 and isinstance(s.targets[0], ast.Tuple) \
+                and self.src(s.value) == 'self.get_values_and_class(key)':
+            a, b = s.targets[0].elts[0].id, s.targets[0].elts[1].id
+            return self.lookup(ind, a, b)
+        if isinstance(s, ast.Assign) and len(s.targets) == 1 and isinstance(s.targets[0], ast.Name) \
+                and self.src(s.value) == 'self.get_values(key)':
+            x = s.targets[0].id
+            if not self.is_declared(x) or not self.is_declared(x + '_cls'):
+                raise Unsupported('alias of the stored list without an earlier lookup: ' + src)
+            return ['%slet some (c_, v_) := KeyDict.valuesAndClass (← get_valid_classes self_shape) d_ | throw PyErr.typeError' % ind,
+                    '%s%s := v_' % (ind, x), '%s%s_cls := c_' % (ind, x)]
+        if isinstance(s, ast.Assign) and len(s.targets) == 1 and isinstance(s.targets[0], ast.Name) \
+                and isinstance(s.value, ast.Subscript) and self.src(s.value.slice) == 'key' \
+                and isinstance(s.value.value, ast.Call) and self.src(s.value.value.func) == 'self.get_class_dict' \
+                and self.is_declared(s.targets[0].id + '_cls'):
+            x = s.targets[0].id
+            c = self.atom(s.value.value.args[0])
+            return ['%s%s := (← KeyDict.get d_ %s)' % (ind, x, c), '%s%s_cls := %s' % (ind, x, c)]
+        if isinstance(s, ast.Assign) and len(s.targets) == 1 and isinstance(s.targets[0], ast.Subscript) \
+                and self.src(s.targets[0].slice) == 'key' and isinstance(s.targets[0].value, ast.Call) \
+                and self.src(s.targets[0].value.func) == 'self.get_class_dict' and len(s.targets[0].value.args) == 1:
+            return ['%sd_ := d_.set %s %s' % (ind, self.atom(s.targets[0].value.args[0]), self.atom(s.value))]
+        if isinstance(s, ast.Delete) and len(s.targets) == 1 and isinstance(s.targets[0], ast.Subscript) \
+                and self.src(s.targets[0].slice) == 'key' and isinstance(s.targets[0].value, ast.Call) \
+                and self.src(s.targets[0].value.func) == 'self.get_class_dict' and len(s.targets[0].value.args) == 1:
+            return ['%sd_ := (← KeyDict.del d_ %s)' % (ind, self.atom(s.targets[0].value.args[0]))]
+        if isinstance(s, ast.Expr) and isinstance(s.value, ast.Call) and self.src(s.value.func) == 'self._change_class' \
+                and len(s.value.args) == 2 and self.src(s.value.args[0]) == 'key':
+            return ['%sd_ := (← change_class null self_shape self_n_slices d_ %s)' % (ind, self.atom(s.value.args[1]))]
+        if isinstance(s, ast.Expr) and isinstance(s.value, ast.Call) and isinstance(s.value.func, ast.Attribute) \
+                and s.value.func.attr == 'extend' and len(s.value.args) == 1:
+            tgt = s.value.func.value
+            if isinstance(tgt, ast.Name) and self.is_declared(tgt.id + '_cls'):
+                x = tgt.id
+                return ['%s%s := %s ++ %s' % (ind, x, x, self.atom(s.value.args[0])),
+                        '%sd_ := d_.set %s_cls %s' % (ind, x, x)]
+            if self.src(tgt) == 'self.get_values(key)':
+                return ['%slet some (c_, v_) := KeyDict.valuesAndClass (← get_valid_classes self_shape) d_ | throw PyErr.typeError' % ind,
+                        '%sd_ := d_.set c_ (v_ ++ %s)' % (ind, self.atom(s.value.args[0]))]
+        if isinstance(s, ast.Return) and s.value is None:
+            return ['%sreturn d_' % ind]
+        if isinstance(s, ast.If) and not s.orelse and isinstance(s.test, ast.UnaryOp) and isinstance(s.test.op, ast.Not) \
+                and isinstance(s.test.operand, ast.Compare) and len(s.test.operand.ops) == 1 \
+                and isinstance(s.test.operand.ops[0], ast.Is) and isinstance(s.test.operand.left, ast.Name) \
+                and s.test.operand.left.id in self.opt_locals:
+            x = s.test.operand.left.id
+            return ['%sif let some %s := %s then' % (ind, x, x)] + self.block(s.body, ind + '  ')
+        return Tr.stmt0(self, s, ind)
+
+
 class TrChkOrder(Tr):
     """the thorough check of `_chk_order`: `_files_info[i][1]` is the sorting tuple (vector, time, position)"""
     PROJ = {0: '.1', 1: '.2.1', 2: '.2.2'}
@@ -609,7 +682,7 @@ inductive PyErr
   | assertionError
   | invalidStack
   | invalidExtension
-  | fuelExhausted | unboundLocal | zeroDivision        -- a translated `while` loop ran longer than the bound the translator gave it
+  | fuelExhausted | unboundLocal | zeroDivision | typeError | keyError        -- a translated `while` loop ran longer than the bound the translator gave it
 deriving DecidableEq, Repr
 
 /-- a classification as the pair of strings the Python code unpacks it into -/
@@ -644,6 +717,34 @@ structure KeyFx (α : Type) where
 
 def KeyFx.write {α : Type} (fx : KeyFx α) (c : Cls) (v : List α) : KeyFx α := { fx with written := fx.written ++ [(c, v)] }
 def KeyFx.del {α : Type} (fx : KeyFx α) (c : Cls) : KeyFx α := { fx with deleted := fx.deleted ++ [c] }
+
+/-- the classification dictionaries of one extension seen from one key: the classes whose dictionary holds the key, with the
+    values stored there (a constant is a one-element list) -/
+abbrev KeyDict (α : Type) := List (Cls × List α)
+
+/-- `get_values_and_class(key)`: `get_classification` scans the valid classes in order -/
+def KeyDict.valuesAndClass {α : Type} (valid : List Cls) (d : KeyDict α) : Option (Cls × List α) :=
+  valid.findSome? fun c => d.find? fun p => p.1 == c
+
+/-- `get_class_dict(c)[key] = v` -/
+def KeyDict.set {α : Type} (d : KeyDict α) (c : Cls) (v : List α) : KeyDict α :=
+  if d.any (fun p => p.1 == c) then d.map (fun p => if p.1 == c then (c, v) else p) else d ++ [(c, v)]
+
+/-- `get_class_dict(c)[key]` (KeyError when absent) -/
+def KeyDict.get {α : Type} (d : KeyDict α) (c : Cls) : Except PyErr (List α) :=
+  match d.find? fun p => p.1 == c with
+  | some p => .ok p.2
+  | none => .error PyErr.keyError
+
+/-- `del get_class_dict(c)[key]` (KeyError when absent) -/
+def KeyDict.del {α : Type} (d : KeyDict α) (c : Cls) : Except PyErr (KeyDict α) :=
+  if d.any (fun p => p.1 == c) then .ok (d.filter fun p => !(p.1 == c)) else .error PyErr.keyError
+
+/-- `shape[slice_dim]` for a `slice_dim` that may be None (TypeError) -/
+def pyShapeAt (shape : List Nat) (slice_dim : Option Nat) : Except PyErr Nat :=
+  match slice_dim with
+  | some d => .ok shape[d]!
+  | none => .error PyErr.typeError
 
 /-- `a // b` of naturals: `ZeroDivisionError` for a zero divisor -/
 def pyFloorDiv (a b : Nat) : Except PyErr Nat := if b == 0 then .error PyErr.zeroDivision else .ok (a / b)
@@ -940,7 +1041,8 @@ def translate():
     if f is None:
         missing.append('get_changed_class: not found')
     else:
-        tr = Tr({'self.shape': 'self_shape', 'self._preserving_changes[curr_class]': '(preserving curr_class)',
+        tr = Tr({'self.shape[slice_dim]': '(← pyShapeAt self_shape slice_dim)',
+                 'self.shape': 'self_shape', 'self._preserving_changes[curr_class]': '(preserving curr_class)',
                  'curr_class == new_class': '(curr_class == some new_class)'},
                 {'self.get_valid_classes()': 'get_valid_classes self_shape',
                  'self.get_multiplicity(curr_class)': 'get_multiplicity self_shape self_n_slices curr_class',
@@ -954,7 +1056,7 @@ def translate():
         tr.stmt_map = {'values, curr_class = self.get_values_and_class(key)': [],
                        "if curr_class is None or curr_class == ('global', 'const'):": [],
                        "if new_class == ('global', 'const'):": ["if (new_class == Cls.gconst) then", "  result := (result.head?).toList"]}
-        emit('get_changed_class', '{α : Type} (self_shape : List Nat) (self_n_slices : Option Nat) (values : List α) (curr_class : Option Cls) (new_class : Cls) (slice_dim : Nat) : Except PyErr (List α)',
+        emit('get_changed_class', '{α : Type} (self_shape : List Nat) (self_n_slices : Option Nat) (values : List α) (curr_class : Option Cls) (new_class : Cls) (slice_dim : Option Nat) : Except PyErr (List α)',
              f.body, tr,
              '`DcmMetaExtension._get_changed_class` (dcmmeta.py), translated statement by statement over the value list of the key: '
              '`get_values_and_class(key)` is the parameters `values` / `curr_class`; a constant (and the `None` of an absent key) is a '
